@@ -145,6 +145,33 @@ PROPS["C06"] = dict(
     technique="property-based testing with harness-owned interleaving of several server instances on a simulated CAS lock store",
     units=[
         sim("^TestVerifC06Instances$", 250, 1200, files=["sim*.go", "c06*.go"]),
-        sim("^TestVerifC06Startup$", 200, 600, files=["sim*.go", "c06*.go"]),
+        sim("^TestVerifC06Startup$", 300, 800, files=["sim*.go", "c06*.go"]),
+    ],
+)
+
+PROPS["C08"] = dict(
+    level="exploration",
+    rule=("rapid-generated honest prefix (1-3 rounds, small and multi-tile, optionally ending 'lock ahead of storage'), then 1-4 tamper operations per tampering moment on objects chosen with a bias to the right edge "
+          "(checkpoint, edge hash/data/names tiles, staging bundles incl. discarded ones, issuers, _roots.pem): delete, truncate, bit-flip, garbage, swap two objects, roll back to any earlier version / restore a deleted object, "
+          "re-pack a staging bundle (altered member, dropped member, extra checkpoint or tile member, duplicated member, bad options, broken archive); applied between runs and during a round at a generated yield point; "
+          "then restart and 1-3 further rounds that reuse old issuers. Oracle: every checkpoint written to the lock store afterwards has the root of (committed leaves ++ sequenced pool) computed from the harness' own "
+          "submissions, and every acknowledgement is one of those leaves; refusing, erroring or panicking are allowed ways to stop. non-trivial = a tampered object on the right edge or a staging bundle; distinct = scenario descriptor hash"),
+    assumptions=["the lock store is trusted (C08 is about object storage)", "a panic counts as stopping"],
+    technique="mutation-based generation of storage states with a storage-independent Merkle model as oracle",
+    units=[
+        sim("^TestVerifC08Tamper$", 400, 2000, files=["sim*.go", "c08*.go"]),
+    ],
+)
+
+PROPS["C17"] = dict(
+    level="exploration",
+    rule=("rapid-generated arrival timelines (3-24 actions: high / low priority / duplicate submissions and cancellation, separated by 0-2.25 s of virtual time) against RunSequencer with a 1 s period inside a testing/synctest bubble, "
+          "pool sizes {0,1,2,3,7}, an optional non-fatal (staging/checkpoint upload) or fatal (lock/tile) failure of a generated round, an optional read-only date crossed during the run; a model of pool occupancy predicts the source of every admission "
+          "decision (admit, reject when full, evict exactly one pending low-priority entry); after synctest.Wait() no submitter whose pool was sequenced/closed may still be blocked; after a stop nothing is signed any more; "
+          "non-trivial = the pool filled up and a high-priority arrival evicted, or a stop with >=1 pending submitter; distinct = timeline descriptor hash"),
+    assumptions=["virtual time of testing/synctest; status-code mapping (503/410) is exercised by C09's HTTP harness, here the error identities are checked"],
+    technique="model-based property testing under virtual time (testing/synctest)",
+    units=[
+        sim("^TestVerifC17Admission$", 500, 3000, files=["sim*.go", "c17*.go"]),
     ],
 )
